@@ -1021,6 +1021,151 @@ theorem C15_mp_reread (bs : List Nat) (hb : AllLt 256 bs) (v : MV) (h : decode b
 end AnonModel.Msgpack
 
 namespace AnonModel.Msgpack
+/-! ## the recursion bound -/
+
+/-- **the recursion bound never changes an answer**: an answer obtained with some bound is the answer with every larger one -/
+theorem dec_decN_mono : ∀ f : Nat,
+    (∀ bs p, dec f bs = some p → dec (f + 1) bs = some p) ∧
+    (∀ n bs p, decN f n bs = some p → decN (f + 1) n bs = some p) := by
+  intro f
+  induction f with
+  | zero =>
+    refine ⟨fun bs p h => by simp [dec] at h, fun n bs p h => ?_⟩
+    cases n with
+    | zero => simpa [decN] using h
+    | succ n => simp [decN] at h
+  | succ f ih =>
+    obtain ⟨ihd, ihn⟩ := ih
+    refine ⟨?_, ?_⟩
+    · intro bs p h
+      cases bs with
+      | nil => simp [dec] at h
+      | cons b rest =>
+        by_cases c1 : b < 128
+        · rw [dec_pfix c1] at h ⊢; exact h
+        by_cases c2 : b < 144
+        · have e : b = 0x80 + (b - 128) := by omega
+          rw [e, dec_fixmap (by omega)] at h ⊢
+          cases hd : decN f (2 * (b - 128)) rest with
+          | none => simp [hd] at h
+          | some q => rw [hd] at h; rw [ihn _ _ _ hd]; exact h
+        by_cases c3 : b < 160
+        · have e : b = 0x90 + (b - 144) := by omega
+          rw [e, dec_fixarr (by omega)] at h ⊢
+          cases hd : decN f (b - 144) rest with
+          | none => simp [hd] at h
+          | some q => rw [hd] at h; rw [ihn _ _ _ hd]; exact h
+        by_cases c4 : b < 192
+        · have e : b = 0xa0 + (b - 160) := by omega
+          rw [e, dec_fixstr (by omega)] at h ⊢; exact h
+        by_cases c5 : 224 ≤ b
+        · by_cases c6 : b < 256
+          · rw [dec_nfix c5 c6] at h ⊢; exact h
+          · simp only [dec] at h
+            repeat (first | rw [if_neg (by omega)] at h)
+            cases h
+        have hcases : b = 192 ∨ b = 193 ∨ b = 194 ∨ b = 195 ∨ b = 196 ∨ b = 197 ∨ b = 198 ∨ b = 199 ∨ b = 200 ∨ b = 201 ∨ b = 202 ∨ b = 203 ∨ b = 204 ∨ b = 205 ∨ b = 206 ∨ b = 207 ∨ b = 208 ∨ b = 209 ∨ b = 210 ∨ b = 211 ∨ b = 212 ∨ b = 213 ∨ b = 214 ∨ b = 215 ∨ b = 216 ∨ b = 217 ∨ b = 218 ∨ b = 219 ∨ b = 220 ∨ b = 221 ∨ b = 222 ∨ b = 223 := by omega
+        rcases hcases with e | e | e | e | e | e | e | e | e | e | e | e | e | e | e | e | e | e | e | e | e | e | e | e | e | e | e | e | e | e | e | e
+        · subst e; rw [dec_c0] at h ⊢; exact h
+        · subst e; simp [dec] at h
+        · subst e; rw [dec_c2] at h ⊢; exact h
+        · subst e; rw [dec_c3] at h ⊢; exact h
+        · subst e; rw [dec_c4] at h ⊢; exact h
+        · subst e; rw [dec_c5] at h ⊢; exact h
+        · subst e; rw [dec_c6] at h ⊢; exact h
+        · subst e; simp [dec] at h
+        · subst e; simp [dec] at h
+        · subst e; simp [dec] at h
+        · subst e; simp [dec] at h
+        · subst e; simp [dec] at h
+        · subst e; rw [dec_cc] at h ⊢; exact h
+        · subst e; rw [dec_cd] at h ⊢; exact h
+        · subst e; rw [dec_ce] at h ⊢; exact h
+        · subst e; rw [dec_cf] at h ⊢; exact h
+        · subst e; rw [dec_d0] at h ⊢; exact h
+        · subst e; rw [dec_d1] at h ⊢; exact h
+        · subst e; rw [dec_d2] at h ⊢; exact h
+        · subst e; rw [dec_d3] at h ⊢; exact h
+        · subst e; simp [dec] at h
+        · subst e; simp [dec] at h
+        · subst e; simp [dec] at h
+        · subst e; simp [dec] at h
+        · subst e; simp [dec] at h
+        · subst e; rw [dec_d9] at h ⊢; exact h
+        · subst e; rw [dec_da] at h ⊢; exact h
+        · subst e; rw [dec_db] at h ⊢; exact h
+        · subst e; rw [dec_dc] at h ⊢
+          cases hd : readBe 2 rest with
+          | none => simp [hd] at h
+          | some q =>
+            obtain ⟨n, r'⟩ := q
+            rw [hd] at h
+            simp only at h ⊢
+            cases hq : decN f n r' with
+            | none => simp [hq] at h
+            | some q2 => rw [hq] at h; rw [ihn _ _ _ hq]; exact h
+        · subst e; rw [dec_dd] at h ⊢
+          cases hd : readBe 4 rest with
+          | none => simp [hd] at h
+          | some q =>
+            obtain ⟨n, r'⟩ := q
+            rw [hd] at h
+            simp only at h ⊢
+            cases hq : decN f n r' with
+            | none => simp [hq] at h
+            | some q2 => rw [hq] at h; rw [ihn _ _ _ hq]; exact h
+        · subst e; rw [dec_de] at h ⊢
+          cases hd : readBe 2 rest with
+          | none => simp [hd] at h
+          | some q =>
+            obtain ⟨n, r'⟩ := q
+            rw [hd] at h
+            simp only at h ⊢
+            cases hq : decN f (2 * n) r' with
+            | none => simp [hq] at h
+            | some q2 => rw [hq] at h; rw [ihn _ _ _ hq]; exact h
+        · subst e; rw [dec_df] at h ⊢
+          cases hd : readBe 4 rest with
+          | none => simp [hd] at h
+          | some q =>
+            obtain ⟨n, r'⟩ := q
+            rw [hd] at h
+            simp only at h ⊢
+            cases hq : decN f (2 * n) r' with
+            | none => simp [hq] at h
+            | some q2 => rw [hq] at h; rw [ihn _ _ _ hq]; exact h
+    · intro n bs p h
+      cases n with
+      | zero => simpa [decN] using h
+      | succ n =>
+        simp only [decN] at h ⊢
+        cases hd : dec f bs with
+        | none => simp [hd] at h
+        | some q =>
+          obtain ⟨x, r1⟩ := q
+          rw [hd] at h
+          rw [ihd _ _ hd]
+          simp only at h ⊢
+          cases hn : decN f n r1 with
+          | none => simp [hn] at h
+          | some q2 => rw [hn] at h; rw [ihn _ _ _ hn]; exact h
+
+theorem dec_mono_le {f g : Nat} (hfg : f ≤ g) {bs : List Nat} {p : MV × List Nat} (h : dec f bs = some p) : dec g bs = some p := by
+  induction hfg with
+  | refl => exact h
+  | step _ ih => exact (dec_decN_mono _).1 _ _ ih
+
+/-- `decode` gives the answer of every smaller bound that gives one: its own bound only decides whether there is an answer
+(and for everything the writer writes there is: `C15_mp_decode_encode`) -/
+theorem C15_mp_bound_irrelevant (f : Nat) (bs : List Nat) (v : MV) (r : List Nat) (hf : f ≤ 2 * bs.length + 2)
+    (h : dec f bs = some (v, r)) : decode bs = some v := by
+  unfold decode
+  rw [dec_mono_le hf h]
+  rfl
+
+end AnonModel.Msgpack
+
+namespace AnonModel.Msgpack
 /-! non-vacuity of the typed hypotheses: a map with the one required member of `PresentationProofValue` -/
 example : payloadKind (.map [.str (key "aggregated"), .nil]) = some 3 := by
   simp [payloadKind, hasKeys, field, key]
